@@ -24,7 +24,10 @@ type C06Case struct {
 func genC06(g gen.G) C06Case {
 	if g.Chance(30) {
 		l := LimitM{Kind: gen.Pick(g, limitKinds), N: gen.Pick(g, []int{97, 99, 100, 101, 102, 103, 130, 1, 0, 250})}
-		if l.Kind != "hooks" && g.Chance(40) {
+		if strings.HasPrefix(l.Kind, "hooks+") {
+			l.Hooks = gen.Pick(g, []int{1, 3, 40, 60, 99, 100, 130})
+			l.N = gen.Pick(g, []int{0, 1, 41, 61, 97, 99, 100, 101, 130})
+		} else if l.Kind != "hooks" && g.Chance(40) {
 			l.Prefix = gen.Pick(g, []string{"n", "n0", "n1", "n09", "n10", "x"})
 		}
 		l.Ext = g.Chance(40)
